@@ -22,7 +22,7 @@ from concurrent.futures import ThreadPoolExecutor
 import vlib
 from vlib import KINDS, NPROC, OUT, SPEC, JAVA_CP, build, cfg_line, log, sh, judge_batch, tlc_trace, max_keys
 
-C06_TAGS = ["C01", "C02", "C03", "C09", "C18", "SPEC", "C06"]
+C06_TAGS = ["C01", "C02", "C03", "C09", "C17", "C18", "SPEC", "C06"]
 
 METHODS = {
     "lru": ["ins", "insr", "era", "erar", "find", "findr", "findf", "size", "empty", "capacity"],
